@@ -62,7 +62,7 @@ ROUND3 = {
 }
 # fourth round (after the second pass): G and H of every property
 ROUND4 = {
- "C04": ["round 4: both MISSED (C04_G: scalar classifier descent `<` vs `<=` of its unrolled twin; C04_H: work sharing hands out the top instead of the bottom live level); CLASSIFY-BUCKET evaluates every descent routine of a classifier against the bucket numbering, FRONT-LEVEL ties the level handed out to the level retired"],
+ "C04": ["round 5 (mini round, six properties): C04_I (the done-flag of the smallest splitter cleared by the level-order tree builder) MISSED: nothing checked the values of the packed splitter_lcp bytes; SPLITTER-LCP-FLAGS evaluates them; round 4: both MISSED (C04_G: scalar classifier descent `<` vs `<=` of its unrolled twin; C04_H: work sharing hands out the top instead of the bottom live level); CLASSIFY-BUCKET evaluates every descent routine of a classifier against the bucket numbering, FRONT-LEVEL ties the level handed out to the level retired"],
  "C09": ["round 4: C09_H reported by REPLAY-TABLE (existed); C09_G (sentinel taken by value, its address kept in the padding leaves) MISSED; PADDING gained a lifetime clause for every key pointer stored in a node"],
  "C10": ["round 4: C10_G reported by JOB-LIFETIME (existed); C10_H (lock-free early return testing half of the wait predicate) MISSED; WAIT-RETURN demands that every return of a waiting member has seen its full predicate under the mutex"],
  "C12": ["round 4: C12_G reported by RC-CONSERVE (existed); C12_H (unify() drops the decrement's result, wrong only if another owner releases concurrently) MISSED; RC-CONSERVE now re-runs every scenario with one step of another owner interleaved before each counter operation"],
